@@ -22,7 +22,7 @@ func digestParamRule(c *Ctx, rule string) {
 			c.Ob(rule, d.name+": arity").Fail(c.W.Pos(fn.Pos()), fmt.Sprintf("arity %d, table has %d", len(fn.Params), len(d.params)), nil)
 			continue
 		}
-		paths := c.Paths(fn, PO{Params: d.params, Visits: 3, OnlyInline: []string{"<none>"}})
+		paths := c.Paths(fn, PO{Params: d.params, Visits: 10})
 		for _, pn := range d.params {
 			o := c.Ob(rule, d.name+": parameter "+pn+" reaches the digest on every returning path")
 			for _, p := range paths {
